@@ -107,13 +107,16 @@ class RecWorld(ConnWorld):
         self.user_asked_disconnect = False
         self.oblig: list[dict[str, Any]] = []  # reconnects the property promises: {"created", "due", "why"}
         self.stop_issued = False  # a stop() was issued after the last start(): nothing is promised any more
+        self.streak_start = 0  # failures since the last start() that returned (whatever the manager was doing at that moment)
+        # start() was called while a session that had survived a completed stop() was still alive (finding F10)
+        self.restart_over_live_session = False
 
     # --- callbacks of the manager --------------------------------------------------------------------
     async def _on_connect(self) -> None:
         self.calls.append((self.loop.time(), "on_connect", None))
         self.note("on_connect")
         self.successes.append(self.loop.time())
-        self.streak = self.streak_ret = self.streak_succ = 0
+        self.streak = self.streak_ret = self.streak_succ = self.streak_start = 0
         self.streak_auth = False
         self.tags.add("on_connect")
 
@@ -137,9 +140,10 @@ class RecWorld(ConnWorld):
         self.streak += 1
         self.streak_ret += 1
         self.streak_succ += 1
+        self.streak_start += 1
         # "the n-th consecutive failed attempt": consecutive since the last success; a start() in between restarts the count, and it is not
         # specified whether at its call or when it takes effect - every reading is accepted
-        self.failures.append((self.loop.time(), tuple(sorted({self.streak, self.streak_ret, self.streak_succ})), auth, self.streak_auth))
+        self.failures.append((self.loop.time(), tuple(sorted({self.streak, self.streak_ret, self.streak_succ, self.streak_start})), auth, self.streak_auth))
         f = self.failures[-1]
         self.promise(max(self.allowed_waits(f[1], f[2], f[3])), f"failure {f[1]}: back-off")
         self.streak_auth = self.streak_auth or auth
@@ -263,6 +267,7 @@ class RecWorld(ConnWorld):
             else:
                 # start() may have had to wait for the manager's lock: it takes effect when it returns
                 self.start_instants.append(self.loop.time())
+                self.streak_start = 0
                 if not self.in_session:
                     self.streak_ret = 0
 
@@ -346,6 +351,8 @@ class RecHarness:
             w.counter += 1
             w.last_start_seq = w.counter
             w.stop_issued = False
+            if w.in_session and w.stopped_done_at is not None:
+                w.restart_over_live_session = True
             w.start_instants.append(w.loop.time())
             w.rl_started = True
             w.stopped_done_at = None
@@ -420,7 +427,11 @@ class RecHarness:
         last = None
         for t, kind, arg in w.calls:
             if kind == "on_connect":
-                if last == "on_connect":
+                if last == "on_connect" and w.restart_over_live_session:
+                    v.append(f"C18:alternation-after-restart-over-live-session: on_connect at {t} follows on_connect without an on_disconnect in "
+                             "between (a session survived a completed stop(), start() was called while it was alive, and it ended while the "
+                             "new attempt was already queued: its on_disconnect is delivered after the next session's on_connect)")
+                elif last == "on_connect":
                     v.append(f"C18:alternation: on_connect at {t} follows on_connect without an on_disconnect in between")
                 last = kind
             elif kind == "on_disconnect":
@@ -594,10 +605,46 @@ SEEDS: list[tuple[Any, ...]] = [
 ]
 
 
+# histories both tiers always execute (beyond the quick tier's depth); the first one reproduces finding F10
+DIRECTED: list[tuple[tuple[str, ...], list[Any]]] = [
+    ((), ["rl_start", "tcp_ok", "rl_stop", "hello_ok", ["nd", "rl_start"], "user_disc", "tcp_ok", "hello_ok", "time"]),
+    ((), ["rl_start", "tcp_ok", "rl_stop", "hello_ok", ["nd", "rl_start"], "rl_start", "eof", "time", "time", "tcp_refused", "time"]),
+    ((), ["rl_start", "tcp_ok", "rl_stop", "hello_ok", "rl_start", "time", "time", "eof", "tcp_ok", "hello_ok", "DR", "time"]),
+]
+
+
+def directed_runs(res: Result) -> int:
+    n = 0
+    for sd, choices in DIRECTED:
+        h = factory(sd, False, False)
+        w = h.fresh()
+        try:
+            v: list[str] = []
+            done: list[Any] = []
+            for lab in choices:
+                if lab not in h.enabled(w):
+                    continue
+                h.apply(w, lab)
+                done.append(lab)
+                v = h.verdict(w)
+                if v:
+                    break
+            else:
+                v = h.finish(w)
+            n += 1
+            if v:
+                res.add(":".join(v[0].split(":")[:2])[:70], v[0], {"harness": "c18", "seed": list(sd), "supplied": False, "hostname": False,
+                                                                   "choices": done, "violated": v, "observations": list(w.log)})
+        finally:
+            h.close(w)
+    return n
+
+
 def run(tier: str, seed: int) -> Result:
     res = Result("C18", "model_checking")
     q = tier == "quick"
     lin = linear_runs(res)
+    lin["directed_histories"] = directed_runs(res)
     total = Stats()
     budget = 200.0 if q else 3000.0
     t_end = time.monotonic() + budget
